@@ -120,7 +120,7 @@ def from_meshio(m,
     if m.cell_sets:
         subdomains = {k: v[meshio_type].astype(np.int32)
                       for k, v in m.cell_sets_dict.items()
-                      if meshio_type in v and k.split(":")[0] != "gmsh"}
+                      if meshio_type in v and not k.startswith("gmsh:")}
 
     # create temporary mesh for matching boundary elements
     mtmp = mesh_type(p, t, validate=False)
@@ -130,7 +130,7 @@ def from_meshio(m,
     if m.cell_sets and bnd_type in m.cells_dict:
         p2f = mtmp.p2f
         for k, v in m.cell_sets_dict.items():
-            if bnd_type in v and k.split(":")[0] != "gmsh":
+            if bnd_type in v and not k.startswith("gmsh:"):
                 facets = m.cells_dict[bnd_type][v[bnd_type]].T
                 sorted_facets = np.sort(facets, axis=0)
                 ind = p2f[:, sorted_facets[0]]
